@@ -62,7 +62,10 @@ def run(ctx, spec):
         L0 = float(10 ** rng.uniform(-0.3, 4))
         r0s = [float(10 ** rng.uniform(-2, 0.3)) for _ in range(2)]   # several r0 for one L0 in one process
         n = 2 * int(rng.integers(3, 12))
-        r_full = np.sort(np.concatenate([[0.0, 1e-6 * L0], L0 * 10 ** rng.uniform(-6, 4, n - 2)]))
+        # separations from far below the outer scale (where D is ~1e-12 of its saturation value and a Kolmogorov
+        # shortcut would still be 0.3-0.7 % off) to far above it
+        r_full = np.sort(np.concatenate([[0.0, 1e-6 * L0, 0.9e-7 * L0, 5e-8 * L0, 1.5e-7 * L0, 3e-7 * L0], L0 * 10 ** rng.uniform(-6, 4, n - 4),
+                                         L0 * 10 ** rng.uniform(-8, -6, 2)]))
         for r0 in r0s:
             r, cls = arg_class(rng, r_full.copy())
             wit = {"r0": r0, "L0": L0, "arg_class": cls}
@@ -83,10 +86,13 @@ def run(ctx, spec):
             ctx.check(bool(np.all(np.isfinite(D)) and np.all(np.isfinite(B))), "nonfinite", "non-finite value returned", wit)
             # vs the reference (constant rounding <= 1e-3, cancellation 64 eps D_sat)
             ctx.close("D_vs_reference", D, Dref, 1e-3 * Dref + canc, "structure_function_vk:reference", wit, scale=2 * B0ref)
-            ctx.close("B_vs_reference", B, Bref, 1e-3 * np.abs(Bref) + 16 * EPS32 * B0ref, "phase_covariance:reference", wit, scale=B0ref)
+            # (both functions evaluate in the precision of the separation array: double unless it is float32)
+            e_b = 16 * EPS32 * B0ref if cls == "float32" else canc
+            ctx.close("B_vs_reference", B, Bref, 1e-3 * np.abs(Bref) + e_b, "phase_covariance:reference", wit, scale=B0ref)
             # D = 2 (B(0) - B(r))
             Bz = float(np.asarray(turb.phase_covariance(0.0, r0, L0)))
-            ctx.close("D=2(B0-B)", D, 2 * (Bz - B), 1e-3 * Dref + 16 * EPS32 * B0ref + canc, "D_equals_2_B0_minus_B", wit, scale=2 * B0ref)
+            ctx.close("D=2(B0-B)", D, 2 * (Bz - B), 1e-3 * Dref + e_b + canc, "D_equals_2_B0_minus_B", wit, scale=2 * B0ref)
+            ctx.close("2(B0-B)_vs_reference", 2 * (Bz - B), Dref, 1e-3 * Dref + 2 * e_b, "phase_covariance:implied_structure_function", wit, scale=2 * B0ref)
             ctx.close("B(0)=0.0863(L0/r0)^(5/3)", Bz, 0.0863 * (L0 / r0) ** (5 / 3.), 2e-3 * Bz, "phase_covariance:variance_constant", wit, scale=Bz)
             # zero, monotone, saturation
             zero_idx = (rr == 0)
@@ -101,7 +107,7 @@ def run(ctx, spec):
             D2 = F(sc.structure_function_vk(r, r0 * c, L0))
             ctx.close("D_r0_scaling", D2 * c ** (5 / 3.), D, 1e-12 * 2 * B0ref + (canc if cls == "float32" else 0), "structure_function_vk:r0_scaling", wit, scale=2 * B0ref)
             B2 = F(turb.phase_covariance(r, r0 * c, L0))
-            ctx.close("B_r0_scaling", B2 * c ** (5 / 3.), B, 8 * EPS32 * B0ref, "phase_covariance:r0_scaling", wit, scale=B0ref)
+            ctx.close("B_r0_scaling", B2 * c ** (5 / 3.), B, 8 * EPS32 * B0ref if cls == "float32" else 1e-12 * B0ref, "phase_covariance:r0_scaling", wit, scale=B0ref)
             # the same physical situation in other length units (all lengths scaled together) gives the same numbers
             cu = float(10 ** rng.uniform(-9, 3))
             Du = F(sc.structure_function_vk(np.asarray(r, dtype=np.float64) * cu, r0 * cu, L0 * cu))
@@ -136,6 +142,21 @@ def run(ctx, spec):
             Ks0 = F(sc.structure_function_kolmogorov(r, r0))
             kol = 6.88 * (rr / r0) ** (5 / 3.)
             ctx.close("kolmogorov_law", (Ks0 - kol) / np.where(kol > 0, kol, 1), np.zeros_like(kol), 1e-3, "kolmogorov:law", wit)
+        # fine scan: D never decreases and B never increases between neighbouring separations (ratio 1.002, 1e-9 L0 .. 1e2 L0)
+        r0 = r0s[0]
+        scan = L0 * 1.002 ** np.arange(int(np.log(1e-9) / np.log(1.002)), int(np.log(1e2) / np.log(1.002)))
+        Ds = F(sc.structure_function_vk(scan, r0, L0))
+        Bs = F(turb.phase_covariance(scan, r0, L0))
+        Dks = F(KL.stf_vonKarman(scan, L0))
+        cz = 64 * 2.3e-16 * 2 * vk.variance(r0, L0)
+        wsc = {"r0": r0, "L0": L0, "scan": "L0 * 1.002^k, 1e-9..1e2 L0", "points": int(scan.size)}
+        ctx.case("monotone_scan", key=("scan", r0, L0), nontrivial=True, sample=wsc)
+        ctx.count("scan_points", int(scan.size))
+        for nm, arr, sgn, cz_ in (("structure_function_vk", Ds, 1, cz), ("phase_covariance", Bs, -1, cz), ("stf_vonKarman", Dks, 1, 64 * 2.3e-16 * 2 * vk.variance(1.0, L0))):
+            d = sgn * np.diff(arr)
+            k = int(np.argmin(d))
+            ctx.check(bool(d[k] >= -cz_), nm + ":monotone:fine_scan",
+                      "%s moves the wrong way by %.3g (cancellation floor %.3g) between r = %.6g L0 and the next scan point" % (nm, -d[k], cz_, scan[k] / L0), dict(wsc, r_over_L0=float(scan[k] / L0)))
         # Kolmogorov limit: for fixed r the von Karman value rises towards 6.88 (r/r0)^(5/3) as L0 grows
         r0 = r0s[0]
         rfix = float(10 ** rng.uniform(-2, 1))
@@ -209,6 +230,8 @@ def run(ctx, spec):
         L0 = float(10 ** rng.uniform(-0.3, 3))
         r0 = float(10 ** rng.uniform(-1.5, 0.3))
         ext = L0 * 10 ** rng.uniform(-2, 1)
+        if s % 4 == 3:
+            ext = L0 * 10 ** rng.uniform(-6.5, -4)        # point sets far smaller than the outer scale (pitch ~1e-7 L0)
         if kind == 0:
             P = rng.uniform(-ext, ext, (n, 2))
         elif kind == 1:
@@ -225,6 +248,6 @@ def run(ctx, spec):
         ctx.case("psd_matrix", key=(n, kind, L0, r0, float(sep.sum())), nontrivial=True, sample={"n": n, "kind": kind, "L0": L0, "r0": r0, "extent": ext})
         ev = np.linalg.eigvalsh(0.5 * (Cm + Cm.T))
         B0 = vk.variance(r0, L0)
-        ctx.metric("min_eig/(-n eps32 B0)", float(-ev.min() / (n * EPS32 * B0)))
-        ctx.check(ev.min() >= -8 * n * EPS32 * B0, "phase_covariance:positive_semidefinite",
+        ctx.metric("min_eig/(-n eps64 B0)", float(-ev.min() / (n * 2.3e-16 * B0)))
+        ctx.check(ev.min() >= -64 * n * 2.3e-16 * B0, "phase_covariance:positive_semidefinite",
                   "covariance matrix of %d points has eigenvalue %.3g (B0 = %.3g)" % (n, ev.min(), B0), {"n": n, "kind": kind, "L0": L0, "r0": r0})
